@@ -8,7 +8,7 @@ import "pgregory.net/rapid"
 // for choosing between weighted alternatives; the draw is still a rapid draw,
 // so replay stays exact.
 func uni(t *rapid.T, label string, n int) int {
-	x := rapid.Uint64().Draw(t, label)
+	x := rapid.Uint64().Draw(t, label) + 0x9e3779b97f4a7c15 // rapid favours 0, which the mixer would leave at 0
 	x ^= x >> 30
 	x *= 0xbf58476d1ce4e5b9
 	x ^= x >> 27
